@@ -36,9 +36,9 @@ struct PhHarness {
 	Heap &heap() { return *reinterpret_cast<Heap *>(w.heap); }
 	PNode &node(int i) { return reinterpret_cast<PNode *>(w.nodes)[i]; }
 	void reset() {
-		memset(&w, 0, sizeof w);
-		new(w.heap) Heap();
-		for(int i = 0; i < n; i++) { PNode *p = new(&node(i)) PNode(); p->prio = prio[i]; p->id = i; }
+		memset(&w, 0xA5, sizeof w);   // nodes and heap are built in storage that is not all-zero, and default-initialised
+		new(w.heap) Heap;
+		for(int i = 0; i < n; i++) { PNode *p = new(&node(i)) PNode; p->prio = prio[i]; p->id = i; }
 		in = 0;
 	}
 	void ops(std::vector<uint32_t> &out) {
